@@ -7,7 +7,7 @@ import (
 )
 
 // HoleDocLens: byte lengths of vHoleDocs (harness/core/zz_verif_hole.go); only used to pick cut positions (a cut beyond the end is clamped by the harness).
-var HoleDocLens = []int{560, 150, 520, 150}
+var HoleDocLens = []int{560, 150, 520, 150, 341}
 
 // NumPrefixes must equal len(vPrefixes) in harness/core/zz_verif_prefixes.go.
 const NumPrefixes = 77
@@ -28,6 +28,9 @@ var Props = map[string]PropFn{
 	"C10": propC10,
 	"C19": propC19,
 	"C15": propC15,
+	"C16": propC16,
+	"C04": propC04,
+	"C17": propC17,
 	"C08": propC08,
 	"C09": propC09,
 	"C06": propC06,
@@ -57,7 +60,7 @@ func propC01(c *Ctx) int {
 		c.RunJob(j)
 	}
 	// a''. symbolic holes (truncating and substituting) cut into representative documents
-	holeLens := []int{HoleDocLens[0], HoleDocLens[1], HoleDocLens[2], HoleDocLens[3]}
+	holeLens := HoleDocLens
 	rng := rand.New(rand.NewSource(c.Seed))
 	for doc, L := range holeLens {
 		for mode := 0; mode <= 1; mode++ {
@@ -706,4 +709,122 @@ func propC15(c *Ctx) int {
 		"outside: INFO among the permuted blocks (quick tier), MACRO/PASTE/INCLUDE blocks (their order sensitivity is C09/C10's subject), more than one document, the JSON bytes",
 		contractRune,
 	}, map[string]interface{}{})
+}
+
+
+func propC16(c *Ctx) int {
+	c.RunJob(Job{Name: "serialisation after earlier calls", Pkg: "core", Fn: "HRepeat", Stubs: []string{"rune"}, PanicIsViolation: true, MaxPaths: 100000, Timeout: time.Hour,
+		MaxSteps: 20000000, MaxDepth: 1000, MustReach: []string{"repeatable"}})
+	// the same on the model-rendered documents of C02 (regex type, enums, JSON-RPC, layouts): second serialisation == first
+	reps := 1
+	if c.Tier == "thorough" {
+		reps = 4
+	}
+	rng := rand.New(rand.NewSource(c.Seed + 16))
+	for _, g := range []int64{2, 3, 7} {
+		for r := 0; r < reps; r++ {
+			fixed := rng.Int63n(1 << 55)
+			c.RunJob(Job{Name: fmt.Sprintf("model n=2 group=%d fixed=%x serialised twice", g, fixed), Pkg: "core", Fn: "HModel",
+				Params: map[string]int64{"n": 2, "mask": 0, "fixed": fixed, "group": g, "repeat": 1},
+				Stubs: []string{"rune"}, PanicIsViolation: true, MaxPaths: 200000, Timeout: time.Hour, MaxSteps: 20000000, MaxDepth: 1000, Quiet: true, MustReach: []string{"model-roundtrip"}})
+		}
+	}
+	return c.Finish("model_checking", []string{
+		"emitter level: what ToJson / ToJsonIndent hand to encoding/json — for every entity its names, ids, annotations, descriptions, parameters, and for every schema and enum the content tree, rules, notes, used types/enums and the EXAMPLE, each obtained the way the MarshalJSON methods obtain it (harness/catalog/zz_verif_deep.go VSchemaEmit, overlaid into package catalog) — after a symbolic sequence of up to three earlier calls (serialise / Title) equals what the first serialisation of a fresh catalog of the same project hands over; 3 fixture projects (regex user type referred to by jsight types, regex bodies, allOf, enums, path variables, query, JSON-RPC) and model-rendered documents of C02 serialised twice",
+		"reduction: encoding/json is a function of the data it is given (trusted; reflection is not encoded), so equal data means equal bytes for ToJson and for ToJsonIndent",
+		"outside: ToOpenAPIJson / ToOpenAPIJsonIndent (catalog/ser/openapi and jsight-schema-core/openapi are reflection-driven), the bytes themselves, calls from several goroutines (C18)",
+		"the regex example generator (github.com/lucasjones/reggen) runs natively inside the engine on the concrete pattern, one stateful generator per schema object as in the real run",
+		contractRune,
+	}, map[string]interface{}{})
+}
+
+
+func propC04(c *Ctx) int {
+	thorough := c.Tier == "thorough"
+	base := Job{Pkg: "core", Fn: "HEmitHole", Stubs: []string{"loc", "rune"}, PanicIsViolation: true, MaxPaths: 500000, Timeout: time.Hour, MaxSteps: 8000000, MaxDepth: 1000, Quiet: true,
+		AllowDrops: []string{"on symbolic operand"}}
+	rng := rand.New(rand.NewSource(c.Seed + 4))
+	emitted := 0
+	for doc, L := range HoleDocLens {
+		var cuts []int
+		if thorough {
+			for p := 0; p <= L; p++ {
+				cuts = append(cuts, p)
+			}
+		} else {
+			n := 10
+			if doc == 4 {
+				n = 40 // the schema document: most of the emitter's code is about schemas
+			}
+			for i := 0; i < n; i++ {
+				cuts = append(cuts, rng.Intn(L+1))
+			}
+		}
+		for _, cut := range cuts {
+			j := base
+			j.Name, j.Params = fmt.Sprintf("emit hole doc#%d cut=%d +2B", doc, cut), map[string]int64{"doc": int64(doc), "cut": int64(cut), "k": 2}
+			jr := c.RunJob(j)
+			emitted += jr.Stats.Reached["emitted"]
+		}
+	}
+	if emitted == 0 {
+		c.Inconclusive("vacuity: no accepted document was emitted")
+	}
+	// the model-rendered documents of C02: every emitter step succeeds, nodes typed consistently (asserted through vEmit in the repeat mode)
+	for _, g := range []int64{2, 3, 4, 7} {
+		fixed := rng.Int63n(1 << 55)
+		c.RunJob(Job{Name: fmt.Sprintf("model n=2 group=%d fixed=%x emitted", g, fixed), Pkg: "core", Fn: "HModel",
+			Params: map[string]int64{"n": 2, "mask": 0, "fixed": fixed, "group": g, "repeat": 1},
+			Stubs: []string{"rune"}, PanicIsViolation: true, MaxPaths: 200000, Timeout: time.Hour, MaxSteps: 20000000, MaxDepth: 1000, Quiet: true, MustReach: []string{"model-roundtrip"}})
+	}
+	return c.Finish("model_checking", []string{
+		"emitter level: for every ACCEPTED document of the hole family (5 representative documents — one of them made of schema constructs: enum rule, regex type, min, allOf, or, forward type reference, arrays, Path, Query — with 2 symbolic bytes substituted at a cut; sampled cuts in the quick tier, every cut in the thorough tier) every step ToJson performs before it calls encoding/json succeeds (emitter-side compilation of each schema: content tree, allOf inheritance, used names; example generation; pseudo-schema notations) and every content node is typed consistently (containers: children, no scalar value; others: a scalar value, no children); the same on model-rendered documents of C02",
+		"reduction: encoding/json does not fail on the data types handed over (strings, bools, slices, structs, pointers; invalid UTF-8 is coerced, not refused) — trusted, reflection is not encoded; ToJson and ToJsonIndent are given the same data",
+		"outside: that the bytes are valid UTF-8 JSON of the JDoc Exchange shape (decided by encoding/json and the struct tags), key order, ToJson vs ToJsonIndent whitespace",
+		contractLoc, contractRune,
+	}, map[string]interface{}{"accepted_documents_emitted": emitted})
+}
+
+
+// C17DocLens: byte lengths of vC17Docs (harness/kit/zz_verif_c17.go).
+var C17DocLens = []int{661, 130}
+
+func propC17(c *Ctx) int {
+	thorough := c.Tier == "thorough"
+	base := Job{Pkg: "kit", Fn: "HOpenAPI", Stubs: []string{"loc", "rune"}, PanicIsViolation: true, MaxPaths: 500000, Timeout: time.Hour, MaxSteps: 20000000, MaxDepth: 1000, Quiet: true,
+		AllowDrops: []string{"on symbolic operand"}}
+	rng := rand.New(rand.NewSource(c.Seed + 17))
+	exported := 0
+	for doc, L := range C17DocLens {
+		var cuts []int
+		if thorough {
+			for p := 0; p <= L; p++ {
+				cuts = append(cuts, p)
+			}
+		} else {
+			n := 50
+			if doc == 1 {
+				n = 15
+			}
+			for i := 0; i < n; i++ {
+				cuts = append(cuts, rng.Intn(L+1))
+			}
+			cuts = append(cuts, L) // the document itself
+		}
+		for _, cut := range cuts {
+			j := base
+			j.Name, j.Params = fmt.Sprintf("openapi hole doc#%d cut=%d +2B", doc, cut), map[string]int64{"doc": int64(doc), "cut": int64(cut), "k": 2}
+			jr := c.RunJob(j)
+			exported += jr.Stats.Reached["exported"]
+		}
+	}
+	if exported == 0 {
+		c.Inconclusive("vacuity: no accepted document was exported")
+	}
+	return c.Finish("model_checking", []string{
+		"structure level: for every ACCEPTED document of the hole family (an HTTP kitchen sink — URL grouping, path variables with and without a Path directive, query, request headers/body, several responses incl. regex and headers+body, tags, OperationId, types with enum/min/allOf/or rules, a regex type — and a JSON-RPC + HTTP document; 2 symbolic bytes substituted at a cut; sampled cuts in the quick tier, every cut in the thorough tier) openapi.NewOpenAPI — everything ToOpenAPIJson does before it calls encoding/json, incl. jsight-schema-core/openapi from its SSA — does not panic and returns an error value or a structure with openapi 3.0.3, info and paths in which every HTTP interaction is paths[path][method], its responses are there under keys that are status codes or 'default', every {parameter} of the path is a required path parameter (with a schema) of the path item, and every user type is a component",
+		"reduction: encoding/json does not fail on the structure handed over (trusted; reflection is not encoded)",
+		"outside: that every $ref resolves (the schema objects of jsight-schema-core/openapi are opaque behind an interface whose MarshalJSON is reflection-driven), the JSON bytes, request bodies / headers / tags of the operations",
+		contractLoc, contractRune,
+	}, map[string]interface{}{"accepted_documents_exported": exported})
 }
